@@ -4,6 +4,8 @@
    over every schedule of plugin answers, store flushes, engine steps and the instant of the stop. *)
 From Verif Require Import Stop.Stop Stop.StopProofs.
 From Verif Require Stop.Events Stop.Check Stop.CheckProofs Stop.GenStop Stop.GenStopProofs Stop.GenStopSim.
+From Verif Require Import Stop.Lifecycle Stop.LifecycleProofs.
+From Verif Require Stop.ShutdownTrace.
 
 Theorem C06_graceful_stop_drains_v1 : forall l s, run (init true) l = Some s -> ret_ok s = true ->
   pack s = stored s /\ stored s = eack s /\ eack s = handled s /\ handled s = taken s /\
@@ -39,6 +41,42 @@ Theorem C06_stop_completes_partial : forall e s, (exists l, run (init e) l = Som
   exists l s', run s l = Some s' /\ ret_ok s' = true.
 Proof. exact stop_completes. Qed.
 Print Assumptions C06_stop_completes_partial.
+
+(* ---- the life of a pipeline (Stop/Lifecycle.v): a graceful stop WITH a reason (the engine's shutdown: StopAll
+   with the shutdown reason, Wait, persister Wait), Teardown calls that fail on a cancelled context, restarts ---- *)
+(* whatever the reason of the stop, in whichever run: when it returned nil the pipeline is drained, its connector
+   instances are released, and the status names who stopped it *)
+Theorem C06_stop_with_any_reason_drains : forall e l x, xrun (xinit e) l = Some x -> ret_ok (xb x) = true ->
+  (pack (xb x) = stored (xb x) /\ stored (xb x) = eack (xb x) /\ eack (xb x) = handled (xb x) /\
+   handled (xb x) = taken (xb x) /\ ph (xb x) = STorn /\ tds (xb x) = 1 /\ dtds (xb x) = 1 /\
+   nacked (xb x) = 0 /\ dirty (xb x) = false) /\
+  srcinst x = false /\ dstinst x = false /\
+  xstat x = (if sysstop x then XSystemStopped else XUserStopped).
+Proof. exact stop_with_any_reason_drains. Qed.
+Print Assumptions C06_stop_with_any_reason_drains.
+
+(* the shutdown is not another protocol: the protocol state of every reachable life is a reachable state of Stop.v *)
+Theorem C06_life_is_a_run_of_the_stop_protocol : forall e x, (exists l, xrun (xinit e) l = Some x) ->
+  exists l, run (init e) l = Some (xb x).
+Proof. exact x_projects. Qed.
+Print Assumptions C06_life_is_a_run_of_the_stop_protocol.
+
+(* progress (partial, as C06_stop_completes_partial): a requested shutdown of a run nobody force-stopped completes *)
+Theorem C06_shutdown_completes_partial : forall e x, (exists l, xrun (xinit e) l = Some x) ->
+  sysstop x = true -> killed (xb x) = false ->
+  exists l s', run (xb x) l = Some s' /\ ret_ok s' = true.
+Proof. exact shutdown_completes. Qed.
+Print Assumptions C06_shutdown_completes_partial.
+
+(* non-vacuity: v1, two records in flight when the shutdown arrives; the second run is stopped by the user *)
+Example C06_nonvacuous_shutdown :
+  exists x, xrun (xinit true)
+    [XStep AEmit false; XStep AEmit false; XStep ATake false; XStep ATake false; XShutdown; XStep AStopSrc false;
+     XStep ALoopEnd false; XStep AHandled false; XStep AHandled false; XStep AEAck false; XStep AEAck false;
+     XStep ATearBegin false; XStep ATearFlushed false; XStep ADeliver false; XStep ADeliver false;
+     XStep ATearDrained false; XStep ADownTear false; XStep ACleanup false; XStep AReturn false] = Some x /\
+    ret_ok (xb x) = true /\ pack (xb x) = 2 /\ xstat x = XSystemStopped.
+Proof. eexists. vm_compute. repeat split. Qed.
 
 (* ---- the tie between model, acceptor and monitor ---- *)
 (* (ii) every log the acceptor accepts satisfies the log part of Mon_C06: at the moment StopAndWait
@@ -93,6 +131,21 @@ Theorem C06_gen_trace_return_drained : forall e m l s pre snap rest,
   Check.drained e false 1 snap (Check.track (GenStopSim.cfgof e m) pre) = true.
 Proof. exact GenStopSim.gen_trace_return_drained. Qed.
 Print Assumptions C06_gen_trace_return_drained.
+
+(* the shutdown in the event vocabulary (Stop/ShutdownTrace.v): the acceptor treats "shutdown called / returned"
+   as it treats StopAndWait, so every trace of the generative model read with its graceful stop being the engine's
+   shutdown is accepted too, and the pipeline was drained at the moment the shutdown returned nil *)
+Theorem C06_gen_trace_accepted_as_shutdown : forall e m l s, GenStop.grun (GenStop.ginit e m) l = Some s ->
+  Check.accept (GenStopSim.cfgof e m) (ShutdownTrace.as_shutdown (GenStop.trace s)) = true.
+Proof. exact ShutdownTrace.gen_trace_accepted_as_shutdown. Qed.
+Print Assumptions C06_gen_trace_accepted_as_shutdown.
+
+Theorem C06_gen_shutdown_return_drained : forall e m l s pre snap rest,
+  GenStop.grun (GenStop.ginit e m) l = Some s ->
+  Check.split_at_ret (ShutdownTrace.as_shutdown (GenStop.trace s)) [] = Some (pre, Events.RNil, snap, rest) ->
+  Check.drained e false 1 snap (Check.track (GenStopSim.cfgof e m) pre) = true.
+Proof. exact ShutdownTrace.gen_shutdown_return_drained. Qed.
+Print Assumptions C06_gen_shutdown_return_drained.
 
 (* tests, not theorems: traces of the generative model run through the executable acceptor and monitor *)
 Example C06_gen_trace_accepted_v1 :
